@@ -1678,7 +1678,15 @@ class _Normalizer:
                 ast.copy_location(new, node)
                 me.stats['inlined_properties'] = me.stats.get('inlined_properties', 0) + 1
                 me.inlined.append(('%s:%s' % (me.m.name, fnode.name), fi.key, id(fnode)))
+                # a property written in terms of other new properties: those read as their expressions too
+                if depth[0] < 6:
+                    depth[0] += 1
+                    try:
+                        new = self.visit(new)
+                    finally:
+                        depth[0] -= 1
                 return new
+        depth = [0]
         T().visit(fnode)
         ast.fix_missing_locations(fnode)
 
@@ -2339,8 +2347,48 @@ class _Normalizer:
                     if isinstance(sub, ast.stmt) and sub is not n_:
                         guarded.add(id(sub))
 
+        def lift(e):
+            """``(A if C else B) > M`` / ``not (A if C else B)``: the conditional expression is the first thing evaluated, so
+            the whole reads ``(A > M) if C else (B > M)``"""
+            if isinstance(e, ast.UnaryOp) and isinstance(e.op, ast.Not):
+                inner = lift(e.operand)
+                if isinstance(inner, ast.IfExp):
+                    return ast.copy_location(ast.IfExp(test=inner.test, body=ast.UnaryOp(op=ast.Not(), operand=inner.body),
+                                                       orelse=ast.UnaryOp(op=ast.Not(), operand=inner.orelse)), e)
+                return e
+            if isinstance(e, ast.Compare) and len(e.ops) == 1:
+                l = lift(e.left)
+                if isinstance(l, ast.IfExp) and not _has_yield(e):
+                    mk = lambda x: ast.Compare(left=x, ops=list(e.ops), comparators=copy.deepcopy(e.comparators))
+                    return ast.copy_location(ast.IfExp(test=l.test, body=mk(l.body), orelse=mk(l.orelse)), e)
+                return e
+            if isinstance(e, ast.BinOp):
+                l = lift(e.left)
+                if isinstance(l, ast.IfExp) and not _has_yield(e):
+                    mk = lambda x: ast.BinOp(left=x, op=e.op, right=copy.deepcopy(e.right))
+                    return ast.copy_location(ast.IfExp(test=l.test, body=mk(l.body), orelse=mk(l.orelse)), e)
+                return e
+            return e
+
         def split(st):
             v = getattr(st, 'value', None)
+            if isinstance(st, _SIMPLE_STMTS) and v is not None and not isinstance(v, ast.IfExp):
+                lv = lift(v)
+                if isinstance(lv, ast.IfExp):
+                    st.value = v = lv
+                    ast.fix_missing_locations(st)
+            if isinstance(st, ast.If):
+                lt = lift(st.test)
+                if isinstance(lt, ast.IfExp) and not _has_yield(lt.test) and sum(1 for _ in ast.walk(st)) < 400:
+                    # if (T1 if C else T2): X else: Y   ->   if C: (if T1: X else: Y) else: (if T2: X else: Y)
+                    a = ast.If(test=lt.body, body=st.body, orelse=st.orelse)
+                    b = ast.If(test=lt.orelse, body=copy.deepcopy(st.body), orelse=copy.deepcopy(st.orelse))
+                    node = ast.If(test=lt.test, body=split(a), orelse=split(b))
+                    for x in (a, b, node):
+                        ast.copy_location(x, st)
+                    ast.fix_missing_locations(node)
+                    me.stats['ifexp'] += 1
+                    return [node]
             if isinstance(st, _SIMPLE_STMTS) and isinstance(v, ast.IfExp) and not _has_yield(v.test):
                 a = copy.copy(st)
                 a.value = v.body
